@@ -166,6 +166,13 @@ func c03(w *World) {
 		return
 	}
 	if l, s := FrameOK(raw); !l || !s {
+		// the serialiser produced framing fields that do not agree with the bytes (by the independent
+		// codec). That alone is C01's subject; but a parser that ACCEPTS such bytes accepts a message
+		// whose BodyLength / CheckSum do not agree with its content
+		if st, lx, _ := accepts(typ, raw); st || lx {
+			w.Violate("inconsistent-framing-accepted", fmt.Sprintf("length-ok=%v/checksum-ok=%v", l, s), fmt.Sprintf("the parser accepts a %s message whose BodyLength/CheckSum do not match its bytes (recomputed independently): %s", typ, Pretty(raw)))
+			return
+		}
 		w.Inconclusive = "framing-anomaly"
 		return
 	}
